@@ -353,6 +353,9 @@ def r6(prog, rep):
     for loc, stmts in blocks.items():
         ctx = Context()
         ex = BetaEx(ctx, mod, loc)
+        ex.on_attr = lambda d, node, env: ctx.sym(d)
+        bs = ctx.sym("self.bpsign")
+        ctx.add_relation(bs, 2, ctx.const(1), "bpsign is +-1")
         env = {}
         for s in stmts:
             ex.stmt(s, env)
@@ -363,9 +366,12 @@ def r6(prog, rep):
         # cos is the projection of the unit radial displacement on unit grad psi
         dx, dz, fr, fz_ = ctx.sym("dxR"), ctx.sym("dxZ"), ctx.sym("f_R"), ctx.sym("f_Z")
         expect_c = (dx * fr + dz * fz_) / (ctx.call("sqrt", dx * dx + dz * dz) * ctx.call("sqrt", fr * fr + fz_ * fz_))
-        expect_s = (dx * fz_ - dz * fr) / (ctx.call("sqrt", dx * dx + dz * dz) * ctx.call("sqrt", fr * fr + fz_ * fz_))
+        # yhat = bpsign * (grad psi direction rotated clockwise) is the unit vector along increasing y;
+        # the metric formulas take beta positive when e_x leans towards -yhat (R10 decides that
+        # independently, from the displacement itself)
+        expect_s = -bs * (dx * fz_ - dz * fr) / (ctx.call("sqrt", dx * dx + dz * dz) * ctx.call("sqrt", fr * fr + fz_ * fz_))
         rep.ob("R6", "%s: cosBeta == dx_hat . gradpsi_hat" % loc, isinstance(c, Rat) and (c - expect_c).is_zero(), fb.site(stmts[0]), c.show(200) if isinstance(c, Rat) else str(c), key="beta/" + loc + "/cos")
-        rep.ob("R6", "%s: sinBeta == dx_hat . (gradpsi_hat rotated by -90deg)" % loc, isinstance(sn, Rat) and (sn - expect_s).is_zero(), fb.site(stmts[0]), sn.show(200) if isinstance(sn, Rat) else str(sn), key="beta/" + loc + "/sin")
+        rep.ob("R6", "%s: sinBeta == -dx_hat . yhat, yhat = bpsign*(gradpsi_hat rotated by -90deg)" % loc, isinstance(sn, Rat) and (sn - expect_s).is_zero(), fb.site(stmts[0]), sn.show(200) if isinstance(sn, Rat) else str(sn), key="beta/" + loc + "/sin")
         forms[loc] = ex.operands
     # operand typing: delta_x is the difference of the radial faces of the same cell
     want = {"centre": ("xlow", "centre"), "ylow": ("corners", "ylow")}
